@@ -20,6 +20,48 @@ CLAIMS = {
              "methods this covers every call sequence, which no finite test sequence can. Argument values are table-driven (domain, boundary, "
              "beyond); the clause 'the silicon stores what is written' is assumed.",
         ref="DESIGN.md section 5 C03"),
+    "C01": dict(
+        technique="abstract interpretation of write()/send()/read() with symbolic buffer length (guard regions, linear length forms, alias tracking), SPI framing analysis of the primitives",
+        text="Decides the clauses of C01 that are visible in the driver's code for all payload lengths and buffer types: the region of lengths that "
+             "reaches W_TX_PAYLOAD under dynamic payloads is exactly [1,32] and every other length raises ValueError before any SPI/CE effect; with "
+             "static payloads the loaded value has exactly the configured length and is buf, buf+zeros or buf[:P]; no public method mutates a caller's "
+             "buffer in place; command bytes, flag clearing, CE pulse, SPI framing, read() protocol, list handling. Delivery on air (exactly once, "
+             "in order, pipe attribution) needs two radios and is declined.",
+        ref="DESIGN.md section 5 C01"),
+    "C02": dict(
+        technique="path-sensitive abstract interpretation with a fresh symbolic STATUS byte per SPI transaction (bit roles by (transaction, bit)), exhaustive over the 128 cached STATUS values for the prologue, typestate on flag freshness",
+        text="Decides which STATUS bit of which SPI transaction controls every decision of send()/resend() on all paths: wait-loop mask, result bit, "
+             "ACK-payload fetch guard, flush prologue for every cached STATUS value, force-retry loop bound and argument passing, resend() "
+             "preconditions/ordering, RX_P_NO isolation, and that no flag is tested in the STATUS byte clocked out by the write that clears it. "
+             "Truth of the result with respect to the air and the wall-clock bound depend on the silicon and are declined.",
+        ref="DESIGN.md section 5 C02"),
+    "C08": dict(
+        technique="inductive per-method abstract interpretation over pinned combinations of user pipe-0 address / RX_ADDR_P0 content / EN_RXADDR.0 / EN_AA.0; writer whitelist for the user-address field and the CE pin",
+        text="Decides for every previous content of RX_ADDR_P0 and every user pipe-0 state that RX entry restores the user's address or closes pipe 0, "
+             "that open_tx_pipe programs TX_ADDR and (with auto-ack on pipe 0) RX_ADDR_P0, CE ordering around the CONFIG write, TX entry opening "
+             "pipe 0, and who may store the user's address or drive CE. Each method preserves these facts, so they hold for every call sequence. "
+             "Probe-packet observations need a peer and are declined.",
+        ref="DESIGN.md section 5 C08"),
+    "C09": dict(
+        technique="abstract interpretation of __enter__/__exit__ with unconstrained register contents against the shadow<->register pairing; constructor base case; delegation and shared-state scans",
+        text="Decides that, whatever another object left in the radio, __enter__ writes every configuration register of the datasheet table with "
+             "exactly the value its shadow stands for (PWR_UP forced on), that __exit__ powers down with CE low and swallows nothing, that every "
+             "wrapper/subclass context manager reaches the same effects, that constructors establish shadow == register, and that no class- or "
+             "module-level mutable object carries configuration. With C03 (setters keep shadows current) this gives the property for every "
+             "interleaving of blocks.",
+        ref="DESIGN.md section 5 C09"),
+    "C10": dict(
+        technique="abstract interpretation of each accessor with STATUS (all 128 values) / FIFO_STATUS / OBSERVE_TX pinned, compared with the datasheet decode table; bit-dependence check of pipe-number tests",
+        text="Decides that every status/FIFO accessor decodes exactly the datasheet's bits for every STATUS / FIFO_STATUS value, that clear_status_flags, "
+             "read, flush_rx/tx, update and interrupt_config issue exactly the documented register values/commands for all argument combinations, and "
+             "that every pipe-number test depends on RX_P_NO only. Agreement with the real FIFO contents after traffic is silicon behaviour and declined.",
+        ref="DESIGN.md section 5 C10"),
+    "C20": dict(
+        technique="the C01/C02/C03/C08/C10 analyses re-targeted at rf24_lite.RF24 with one shared oracle (sibling agreement) plus guard-region analysis of load_ack()",
+        text="Applies the rule sets of C01, C02, C03, C08 and C10 to the lite driver (which no test imports) with the same datasheet/docs reference "
+             "tables restricted to the documented reductions, and decides that load_ack() reaches W_ACK_PAYLOAD exactly for len in [1,32] and pipe in "
+             "[0,5] and otherwise leaves the radio untouched. On-air interoperation is declined.",
+        ref="DESIGN.md section 5 C20"),
 }
 
 NOT_APPLICABLE_REASON = "check not built yet (build in progress, see DESIGN.md section 9)"
